@@ -84,7 +84,7 @@ def make_requests(rng, tree, client, n, xtalk=False):
         r = rng.random()
         leaf = rng.choice(lv)
         if r < 0.12:
-            plan.append((leaf[1], 'poison' if leaf[3] else 'fail', None))
+            plan.append((leaf[1], 'poison' if leaf[3] else 'fail', None if leaf[3] else rng.choice([None, None, 'TimeoutError', 'MpTimeout', 'queue.Empty', 'KeyError', 'EOFError', 'BrokenPipeError'])))
         elif r < 0.17:
             plan.append((leaf[1], 'reject', None))
         if rng.random() < 0.25:
@@ -110,7 +110,8 @@ def judge(tree, tok, deadline, outcome, viol, obs, where):
 
     obs['requests'] += 1
     exp = SH.interpret(tree, tok, tok)
-    if isinstance(outcome, (MpTimeout, TimeoutError)) and not isinstance(outcome, type(None)):
+    own_error = isinstance(outcome, BaseException) and len(outcome.args) == 2 and outcome.args[1] == (tok[1], tok[2])  # raised by the worker for this request
+    if isinstance(outcome, (MpTimeout, TimeoutError)) and not own_error:
         if deadline <= 0.25:
             obs['timeouts_short_deadline'] += 1
             return
